@@ -791,6 +791,14 @@ func c15runPublisher(r *kit.Run, rb *c15rigBroker, cid string, limiter bool, out
 		r.Violation("publisher-connection-ended-by-broker", map[string]interface{}{"cid": cid, "state": st, "sent": outs})
 		return
 	}
+	c15judgePublisher(r, rb, c, cid, limiter, outs, nil)
+}
+
+// c15judgePublisher compares what client c sent (outs) with the calls the recording pipeline
+// saw for it and with the PUBACKs in c's receive log.  Precondition: a PINGREQ/PINGRESP round
+// trip on c after the last packet of outs.  ctx (may be nil) names the situation a packet was
+// sent in; it becomes part of the signature of a PUBACK verdict about that packet.
+func c15judgePublisher(r *kit.Run, rb *c15rigBroker, c *c15rigClient, cid string, limiter bool, outs []c15out, ctx func(o c15out) string) {
 	r.Eval(len(outs))
 	sent := map[string]int{}   // payload -> packets sent
 	sentID := map[uint16]int{} // id -> QoS1 packets sent
@@ -861,19 +869,29 @@ func c15runPublisher(r *kit.Run, rb *c15rigBroker, cid string, limiter bool, out
 		}
 		r.Cover(fmt.Sprintf("clientpublish:limiter=%v/q%d/dup=%v/calls=%d/of=%d", limiter, o.QoS, n > 1, got, n))
 	}
+	byID := map[uint16]c15out{}
+	for _, o := range outs {
+		if o.QoS == 1 && !o.Dup {
+			byID[o.ID] = o
+		}
+	}
 	for id, n := range sentID {
 		a, want := acks[id], n
 		if limiter {
 			want = callsID[id]
+		}
+		where := ""
+		if ctx != nil {
+			where = ctx(byID[id])
 		}
 		if a != want {
 			k := "missing"
 			if a > want {
 				k = "extra"
 			}
-			r.Violation(fmt.Sprintf("client-publish:puback-%s:limiter=%v", k, limiter), detail(map[string]interface{}{"id": id, "qos1_packets_sent_with_id": n, "pipeline_calls": callsID[id], "pubacks": a}))
+			r.Violation(fmt.Sprintf("client-publish:puback-%s:limiter=%v%s", k, limiter, where), detail(map[string]interface{}{"id": id, "qos1_packets_sent_with_id": n, "pipeline_calls": callsID[id], "pubacks": a}))
 		} else {
-			r.Count("qos1_publishes_acked", int64(a))
+			r.Count("qos1_publishes_acked"+where, int64(a))
 		}
 	}
 }
